@@ -115,6 +115,8 @@ class Sym:
         self.plan = dict(prologue=[], slice=[], skipped=set(), loops=[])
         self.guards = []
         self.consts = spec.get("consts", {})
+        self.loop_ctx = None        # (text of the recursive call without the state, [(state variable, type)]) while translating the body of a `while True:` loop
+        self.loop_defs = []         # texts of the auxiliary loop definitions (emitted in front of the main definition)
 
     # ---------------- expressions
     def expr(self, node, env):
@@ -235,6 +237,19 @@ class Sym:
             a, ta = self.expr(node.args[0], env)
             self.need(ta, "num")
             return f"(ofInt (pyRoundHalfEven {a}) : α)", "num"
+        if fn == "dict" and not node.args and [k.arg for k in node.keywords] == [self.spec.get("dict_key")]:
+            e, t = self.expr(node.keywords[0].value, env)       # dict(n=value): a fresh one-entry dict
+            self.need(t, "int")
+            return f"(some (some (some {e})))", "dictn"
+        if base == "get" and len(node.args) == 2 and not node.keywords and fn[:-4] in env and env[fn[:-4]] is not POISON and env[fn[:-4]][1] in ("dictn", "dictv"):
+            x, tx = env[fn[:-4]]
+            if tx != "dictv":
+                raise Untranslatable("get on a dict that may be None")
+            if not (isinstance(node.args[0], ast.Constant) and node.args[0].value == self.spec.get("dict_key")):
+                raise Untranslatable("dict key")
+            d, td = self.expr(node.args[1], env)
+            self.need(td, "int")
+            return f"(match {x} with | some v => v | none => some {d})", "oint"
         if fn == "int" and len(node.args) == 1 and not node.keywords:
             a, ta = self.expr(node.args[0], env)
             if ta == "int":
@@ -335,6 +350,8 @@ class Sym:
                     m = {ast.Eq: f"({a} = some {b})", ast.NotEq: f"(¬ ({a} = some {b}))"}
                 elif ta == "str" and tb == "str":
                     m = {ast.Eq: f"({a} = {b})", ast.NotEq: f"(¬ ({a} = {b}))"}
+                elif ta in ("oint", "dictn", "dictv") and tb == "none":
+                    m = {ast.Is: f"({a}.isNone = true)", ast.IsNot: f"({a}.isNone = false)", ast.Eq: f"({a}.isNone = true)"}
                 elif ta == "onum" and tb == "none":
                     m = {ast.Is: f"({a}.isNone = true)", ast.IsNot: f"({a}.isNone = false)", ast.Eq: f"({a}.isNone = true)"}
                 elif ta == "ostr" and tb == "none":
@@ -379,6 +396,14 @@ class Sym:
         return names
 
     def finish(self, env):
+        if self.loop_ctx is not None:       # end of the body of `while True:` (or `continue`): next iteration with the current values of the state
+            call, state = self.loop_ctx
+            vals = []
+            for n, t in state:
+                if n not in env or env[n] is POISON or env[n][1] != t:
+                    raise Untranslatable(f"loop state {n}")
+                vals.append(env[n][0])
+            return f"({call} " + " ".join(vals) + ")"
         if self.spec.get("fallthrough") == "none":
             return "none"
         vals = []
@@ -436,6 +461,12 @@ class Sym:
                 value = ast.BinOp(left=s.target, op=s.op, right=s.value)
             name = target_name(tgt)
             env2 = dict(env)
+            ds = self.dict_store(tgt, value, env)
+            if ds is not None:
+                self.counter += 1
+                fresh = f"{lean_ident(ds[0])}_{self.counter}"
+                env2[ds[0]] = (fresh, "dictn")
+                return f"(let {fresh} : {LEAN_TYPES['dictn']} := {ds[1]}; {self.run(rest, env2)})"
             unpack = self.spec.get("unpack", {})
             if isinstance(tgt, ast.Tuple) and dotted(value) in unpack and len(tgt.elts) == len(unpack[dotted(value)]):
                 for el, pname in zip(tgt.elts, unpack[dotted(value)]):     # `a, b = pair`: the components are inputs of the slice
@@ -480,6 +511,35 @@ class Sym:
             static = self.static_test(s.test)
             if static is not None:          # e.g. `if verbose > 0:` with the declared constant verbose = 0
                 return self.run(list(s.body if static else s.orelse) + rest, env)
+            nt = self.none_test(s.test, env)
+            if nt is not None:
+                # `if x is None:` on an optional value: a match; in the other branch (and in what follows it) x stands for the value
+                fresh, env_some = self.refine(nt[0], env)
+                body_none, body_some = (s.orelse, s.body) if nt[1] else (s.body, s.orelse)
+                if not self.has_exit(s.body) and not self.has_exit(s.orelse):
+                    ea, la = self.block(body_none, env)
+                    eb, lb = self.block(body_some, env_some)
+                    env2 = dict(env)
+                    merged = []
+                    for n in sorted(self.assigned(s.body) | self.assigned(s.orelse)):
+                        va, vb = ea.get(n), eb.get(n)
+                        if va is None or vb is None or va is POISON or vb is POISON or va[1] != vb[1] or (n == nt[0] and vb == env_some[n]):
+                            if n in env2 or va is not None or vb is not None:
+                                env2[n] = POISON
+                            continue
+                        self.counter += 1
+                        merged.append((n, f"{lean_ident(n)}_{self.counter}", va, vb))
+                        env2[n] = (merged[-1][1], va[1])
+                    if not merged:
+                        return self.run(rest, env2)
+                    pat = merged[0][1] if len(merged) == 1 else "(" + ", ".join(m[1] for m in merged) + ")"
+                    ta = merged[0][2][0] if len(merged) == 1 else "(" + ", ".join(m[2][0] for m in merged) + ")"
+                    tb = merged[0][3][0] if len(merged) == 1 else "(" + ", ".join(m[3][0] for m in merged) + ")"
+                    ty = " × ".join(LEAN_TYPES.get(m[2][1], "_") for m in merged)
+                    return f"(match ((match {env[nt[0]][0]} with | none => ({la}{ta}) | some {fresh} => ({lb}{tb})) : {ty}) with | {pat} => {self.run(rest, env2)})"
+                a = self.run(list(body_none) + rest, env)
+                b = self.run(list(body_some) + rest, env_some)
+                return f"(match {env[nt[0]][0]} with | none => {a} | some {fresh} => {b})"
             try:
                 c = self.cond(s.test, env)
             except Untranslatable:
@@ -525,10 +585,76 @@ class Sym:
             e, t = self.expr(s.value, env)
             return f"some {e}" if self.option else e
         if isinstance(s, ast.Continue):
+            if self.loop_ctx is not None:
+                return self.finish(env)
             return self.exit_value("continue")
+        if isinstance(s, ast.While):
+            return self.while_true(s, env)
         if isinstance(s, ast.Raise):
             return self.exit_value("raise")
         raise Untranslatable(type(s).__name__)
+
+    def none_test(self, test, env):
+        """`x is None` / `x is not None` / `x == None` on a variable of an optional type -> (name, negated), else None"""
+        if isinstance(test, ast.Compare) and len(test.ops) == 1 and isinstance(test.ops[0], (ast.Is, ast.IsNot, ast.Eq, ast.NotEq)) \
+                and isinstance(test.comparators[0], ast.Constant) and test.comparators[0].value is None:
+            name = dotted(test.left)
+            if name in env and env[name] is not POISON and env[name][1] in REFINES:
+                return name, isinstance(test.ops[0], (ast.IsNot, ast.NotEq))
+        return None
+
+    def refine(self, name, env):
+        """environment of the branch in which `name` is known not to be None: (pattern variable, new environment)"""
+        self.counter += 1
+        fresh = f"{lean_ident(name)}_v{self.counter}"
+        env2 = dict(env)
+        env2[name] = (fresh, REFINES[env[name][1]])
+        return fresh, env2
+
+    def dict_store(self, tgt, value, env):
+        """`d["n"] = value` on the one-entry dict of the spec: the new value of d (text, type) or None when the target is something else"""
+        if isinstance(tgt, ast.Subscript) and isinstance(tgt.slice, ast.Constant) and tgt.slice.value == self.spec.get("dict_key") and self.spec.get("dict_key") is not None:
+            d = dotted(tgt.value)
+            if d in env and env[d] is not POISON and env[d][1] in ("dictn", "dictv"):
+                if env[d][1] != "dictv":
+                    raise Untranslatable("store into a dict that may be None")
+                e, t = self.expr(value, env)
+                if t == "oint":
+                    return d, f"(some (some {e}))"
+                self.need(t, "int")
+                return d, f"(some (some (some {e})))"
+        return None
+
+    def while_true(self, s, env):
+        """`while True: body` whose exits are `return`s: an auxiliary definition `NAME.loop params fuel state` by recursion on the fuel (`none` when it runs out);
+        the state is the declared list of variables the body assigns, the body may otherwise use the parameters of the target only"""
+        state = self.spec.get("loop_state")
+        if state is None or not (isinstance(s.test, ast.Constant) and s.test.value is True) or s.orelse or self.loop_ctx is not None \
+                or not self.option or self.spec.get("out") != ["return"]:
+            raise Untranslatable("while loop")
+        if any(isinstance(n, ast.Break) for b in s.body for n in ast.walk(b)):
+            raise Untranslatable("break in while True")
+        if sorted(self.assigned(s.body)) != sorted(n for n, _ in state):
+            raise Untranslatable("loop state " + ",".join(sorted(self.assigned(s.body))))
+        params = [(p, PARAM_BASE.get(t, t)) for p, t in self.spec["params"] if t != "fuel"]
+        env_loop = {p: (lean_ident(p), t) for p, t in params}
+        for n, t in state:
+            env_loop[n] = (lean_ident(n) + "_s", t)
+        name = self.spec["name"]
+        pnames = " ".join(lean_ident(p) for p, _ in params)
+        self.loop_ctx = (f"{name}.loop (α := α) {pnames} fuel_rec", state)
+        try:
+            body = self.run(list(s.body), env_loop)
+        finally:
+            self.loop_ctx = None
+        self.loop_defs.append(loop_head(self.spec) + "\n  | 0" + ", _" * len(state) + " => none\n  | Nat.succ fuel_rec, "
+                              + ", ".join(lean_ident(n) + "_s" for n, _ in state) + " => " + body)
+        vals = []
+        for n, t in state:
+            if n not in env or env[n] is POISON or env[n][1] != t:
+                raise Untranslatable(f"initial loop state {n}")
+            vals.append(env[n][0])
+        return f"({name}.loop (α := α) {pnames} fuel " + " ".join(vals) + ")"
 
     def zeros(self, name, value, env):
         """`x = np.zeros(k)` with a literal k: one pseudo variable per entry; returns the let text or None"""
@@ -587,19 +713,30 @@ class Sym:
                     env, l2 = self.block(list(s.body if static else s.orelse), env)
                     lets += l2
                     continue
-                try:
-                    c = self.cond(s.test, env)
-                except Untranslatable:
-                    for n in self.assigned([s]):
-                        env[n] = self.inputs[n] if n in self.inputs else POISON
-                    self.plan["skipped"].add(id(s))
-                    continue
-                ea, la = self.block(s.body, env)
-                eb, lb = self.block(s.orelse, env)
+                nt = self.none_test(s.test, env)
+                if nt is not None:
+                    fresh, env_some = self.refine(nt[0], env)
+                    body_none, body_some = (s.orelse, s.body) if nt[1] else (s.body, s.orelse)
+                    ea, la = self.block(body_none, env)
+                    eb, lb = self.block(body_some, env_some)
+                    sel = lambda A, B: f"(match {env[nt[0]][0]} with | none => {A} | some {fresh} => {B})"    # noqa: E731
+                    stale = {nt[0]: env_some[nt[0]]}
+                else:
+                    try:
+                        c = self.cond(s.test, env)
+                    except Untranslatable:
+                        for n in self.assigned([s]):
+                            env[n] = self.inputs[n] if n in self.inputs else POISON
+                        self.plan["skipped"].add(id(s))
+                        continue
+                    ea, la = self.block(s.body, env)
+                    eb, lb = self.block(s.orelse, env)
+                    sel = lambda A, B: f"(if {c} then {A} else {B})"    # noqa: E731
+                    stale = {}
                 merged = []
                 for n in sorted(self.assigned(s.body) | self.assigned(s.orelse)):
                     va, vb = ea.get(n), eb.get(n)
-                    if va is None or vb is None or va is POISON or vb is POISON or va[1] != vb[1]:
+                    if va is None or vb is None or va is POISON or vb is POISON or va[1] != vb[1] or (n in stale and vb == stale[n]):
                         if n in env or va is not None or vb is not None:
                             env[n] = POISON
                         continue
@@ -610,7 +747,7 @@ class Sym:
                     ta = merged[0][1][0] if len(merged) == 1 else "(" + ", ".join(m[1][0] for m in merged) + ")"
                     tb = merged[0][2][0] if len(merged) == 1 else "(" + ", ".join(m[2][0] for m in merged) + ")"
                     ty = " × ".join(LEAN_TYPES.get(m[1][1], "_") for m in merged)
-                    lets += f"let {pk} : {ty} := (if {c} then ({la}{ta}) else ({lb}{tb})); "
+                    lets += f"let {pk} : {ty} := {sel(f'({la}{ta})', f'({lb}{tb})')}; "
                     for i, (n, va, vb) in enumerate(merged):
                         self.counter += 1
                         fresh = f"{lean_ident(n)}_{self.counter}"
@@ -621,6 +758,13 @@ class Sym:
                 tgt = s.target if isinstance(s, ast.AugAssign) else s.targets[0]
                 name = target_name(tgt)
                 value = s.value if isinstance(s, ast.Assign) else ast.BinOp(left=s.target, op=s.op, right=s.value)
+                ds = self.dict_store(tgt, value, env)
+                if ds is not None:
+                    self.counter += 1
+                    fresh = f"{lean_ident(ds[0])}_{self.counter}"
+                    lets += f"let {fresh} : {LEAN_TYPES['dictn']} := {ds[1]}; "
+                    env[ds[0]] = (fresh, "dictn")
+                    continue
                 if name is None:
                     for n in self.assigned([s]):
                         env[n] = POISON
@@ -723,7 +867,20 @@ def find_lambda(tree, path):
 PLANS = {}      # name -> (spec, module ast, plan) of the targets translated by the last `emit`
 
 
-LEAN_TYPES = {"num": "α", "str": "String", "table": "List (String × String)", "bool": "Bool", "int": "Int", "onum": "Option α", "obool": "Option Bool"}
+LEAN_TYPES = {"num": "α", "str": "String", "table": "List (String × String)", "bool": "Bool", "int": "Int", "onum": "Option α", "obool": "Option Bool",
+              "pint": "Int", "fuel": "Nat", "oint": "Option Int", "dictn": "Option (Option (Option Int))", "dictv": "Option (Option Int)"}
+REFINES = {"oint": "int", "onum": "num", "dictn": "dictv"}       # optional type -> type of the value once it is known not to be None
+PARAM_BASE = {"pint": "int"}                                      # parameter types that only steer the input generator
+
+
+def loop_head(spec):
+    params = [(p, t) for p, t in spec["params"] if t != "fuel"]
+    ret_types = spec.get("out_types", ["num"] * len(spec["out"]))
+    ret = LEAN_TYPES[ret_types[0]] if len(ret_types) == 1 else "(" + " × ".join(LEAN_TYPES[t] for t in ret_types) + ")"
+    binders = " ".join(f"({lean_ident(p)} : {LEAN_TYPES[t]})" for p, t in params)
+    state = " → ".join(LEAN_TYPES[t] for _, t in spec["loop_state"])
+    return f"def {spec['name']}.loop {{α : Type}} [Transc α] {binders} : Nat → {state} → Option {ret}"
+
 
 
 def translate(repo, spec):
@@ -732,17 +889,21 @@ def translate(repo, spec):
     sym = Sym(spec)
     ret_types = spec.get("out_types", ["num"] * len(spec["out"]))
     ret = LEAN_TYPES[ret_types[0]] if len(ret_types) == 1 else "(" + " × ".join(LEAN_TYPES[t] for t in ret_types) + ")"
-    zero = {"num": "(n# 0)", "str": '""', "bool": "false", "int": "(0 : Int)", "obool": "none"}
+    zero = {"num": "(n# 0)", "str": '""', "bool": "false", "int": "(0 : Int)", "obool": "none", "dictn": "none", "oint": "none"}
     placeholder = zero[ret_types[0]] if len(ret_types) == 1 else "(" + ", ".join(zero[t] for t in ret_types) + ")"
     if spec.get("option"):
         ret, placeholder = f"Option {ret}", "none"
     binders = " ".join(f"({lean_ident(p)} : {LEAN_TYPES[t]})" for p, t in [(t_, "table") for t_ in spec.get("tables", [])] + params)
     head = f"def {spec['name']} {{α : Type}} [Transc α] {binders} : {ret} :="
+    if spec.get("loop_state") is not None:      # the auxiliary loop definition exists (with its declared signature) also when the target is unavailable
+        placeholder_loop = loop_head(spec) + " :=\n  fun _ " + "_ " * len(spec["loop_state"]) + "=> none\n"
+    else:
+        placeholder_loop = ""
     try:
         with open(os.path.join(repo, spec["file"])) as f:
             tree = ast.parse(f.read())
         sym.tree = tree
-        env = {p: (lean_ident(p), t) for p, t in params}
+        env = {p: (lean_ident(p), PARAM_BASE.get(t, t)) for p, t in params if t != "fuel"}
         for t_ in spec.get("tables", []):
             env[t_] = (lean_ident(t_), "table")
         for c_, v_ in spec.get("consts", {}).items():
@@ -791,7 +952,7 @@ def translate(repo, spec):
                                 env[n] = POISON
                             for p_, t_ in params:      # loop variables that are inputs of the slice
                                 if p_ in tnames:
-                                    env[p_] = (lean_ident(p_), t_)
+                                    env[p_] = (lean_ident(p_), PARAM_BASE.get(t_, t_))
                             sym.plan["loops"].append(s)
                             stmts = list(s.body)
                             break
@@ -799,7 +960,7 @@ def translate(repo, spec):
                     raise Untranslatable(f"loop over {loopvar} not found")
             if spec.get("descend"):
                 for p_, t_ in params:          # the slice's inputs are the values the variables hold when the loop body starts
-                    env[p_] = (lean_ident(p_), t_)
+                    env[p_] = (lean_ident(p_), PARAM_BASE.get(t_, t_))
             if "start_after" in spec:
                 for i, s in enumerate(stmts):
                     if spec["start_after"] in sym.assigned([s]):
@@ -808,7 +969,7 @@ def translate(repo, spec):
                 lets += l2
                 stmts = stmts[last + 1:]
                 for p_, t_ in params:
-                    env[p_] = (lean_ident(p_), t_)
+                    env[p_] = (lean_ident(p_), PARAM_BASE.get(t_, t_))
             if "start_at_src" in spec:
                 for i, s in enumerate(stmts):
                     if ast.unparse(s) == spec["start_at_src"]:
@@ -816,7 +977,7 @@ def translate(repo, spec):
                         lets += l2
                         stmts = stmts[i:]
                         for p_, t_ in params:
-                            env[p_] = (lean_ident(p_), t_)
+                            env[p_] = (lean_ident(p_), PARAM_BASE.get(t_, t_))
                         break
                 else:
                     raise Untranslatable("no statement " + spec["start_at_src"])
@@ -827,7 +988,7 @@ def translate(repo, spec):
                         lets += l2
                         stmts = stmts[i:]
                         for p_, t_ in params:
-                            env[p_] = (lean_ident(p_), t_)
+                            env[p_] = (lean_ident(p_), PARAM_BASE.get(t_, t_))
                         break
                 else:
                     raise Untranslatable("no if-statement with the test " + spec["start_at_test"])
@@ -838,7 +999,7 @@ def translate(repo, spec):
                         lets += l2
                         stmts = stmts[i:]
                         for p_, t_ in params:      # the slice's inputs are the values the variables hold at its start
-                            env[p_] = (lean_ident(p_), t_)
+                            env[p_] = (lean_ident(p_), PARAM_BASE.get(t_, t_))
                         break
                 else:
                     raise Untranslatable(f"no statement assigns {spec['start_at']}")
@@ -847,12 +1008,14 @@ def translate(repo, spec):
             body = "".join(lets) + sym.run(stmts, env)
             if sym.guards:
                 raise Untranslatable("exception guard outside an assignment")
+        if spec.get("loop_state") is not None and not sym.loop_defs:
+            raise Untranslatable("no while loop")
         PLANS[spec["name"]] = (spec, tree, sym.plan)
-        return True, f"{head}\n  {body}", None
+        return True, "".join(d + "\n" for d in sym.loop_defs) + f"{head}\n  {body}", None
     except Untranslatable as e:
-        return False, f"-- not translated: {e}\n{head}\n  {placeholder}", str(e)
+        return False, f"-- not translated: {e}\n{placeholder_loop}{head}\n  {placeholder}", str(e)
     except Exception as e:      # a file that does not parse, ...: never an alarm of its own
-        return False, f"-- not translated: {type(e).__name__}\n{head}\n  {placeholder}", f"{type(e).__name__}: {e}"
+        return False, f"-- not translated: {type(e).__name__}\n{placeholder_loop}{head}\n  {placeholder}", f"{type(e).__name__}: {e}"
 
 
 # ----------------------------------------------------------------------------------------------- what is translated
@@ -983,7 +1146,18 @@ TARGETS += [
          params=[("maximum_value", "num"), ("maximum_value_threshold", "num")], out=["valid_window_boolean_mask.append"], out_types=["obool"]),
 ]
 
-GROUPS = ["TimeRej", "Combine", "Azimuth", "Orient", "Windows", "Stats", "Sesame", "Fdwra", "Psd", "Nyquist", "Spatial", "Split", "Readers", "Peaks", "Trim", "ObjectIO"]
+TARGETS += [
+    # FFT length (C01, C09, C19). nextpow2: the `while True` loop as a recursion on fuel; prepare_fft_settings: what is stored back into settings.fft_settings
+    # as a function of its previous value (None / no key n / n None / n = k), nextpow2 of the longest record and that length
+    dict(group="Fft", name="nextpow2", file="hvsrpy/processing.py", func="nextpow2", check_args=["n", "minimum_power_of_two"],
+         params=[("fuel", "fuel"), ("n", "int"), ("minimum_power_of_two", "pint")], loop_state=[("power_of_two", "int")],
+         out=["return"], out_types=["int"], option=True),
+    dict(group="Fft", name="prepare_fft_store", file="hvsrpy/processing.py", func="prepare_fft_settings", check_args=["records", "settings"],
+         start_after="good_n", dict_key="n",
+         params=[("good_n", "int"), ("max_n_samples", "int"), ("settings.fft_settings", "dictn")], out=["settings.fft_settings"], out_types=["dictn"]),
+]
+
+GROUPS = ["Fft", "TimeRej", "Combine", "Azimuth", "Orient", "Windows", "Stats", "Sesame", "Fdwra", "Psd", "Nyquist", "Spatial", "Split", "Readers", "Peaks", "Trim", "ObjectIO"]
 
 
 def emit(repo):
@@ -1012,8 +1186,8 @@ def _emit(repo):
     return status, texts
 
 
-READ = {"num": "flt", "str": "tok", "bool": "bool", "int": "int", "onum": "optFlt"}
-SHOW = {"num": "fF", "int": "toString", "bool": "fB", "str": "id", "obool": "fOB"}
+READ = {"num": "flt", "str": "tok", "bool": "bool", "int": "int", "onum": "optFlt", "pint": "int", "fuel": "nat", "dictn": "dictN"}
+SHOW = {"num": "fF", "int": "toString", "bool": "fB", "str": "id", "obool": "fOB", "dictn": "fDN"}
 
 
 def emit_driver(status):
@@ -1024,7 +1198,12 @@ def emit_driver(status):
          "/-! GENERATED by tools/py2lean.py -- driver commands evaluating the translated definitions at Float. -/",
          "namespace HV.Drv", "open HV.Proto HV.Generated", "",
          "def strPairs : P (List (String × String)) := do rep (← nat) (do let a ← tok; let b ← tok; pure (a, b))",
-         "def fOB : Option Bool → String | none => \"none\" | some b => fB b", "",
+         "def fOB : Option Bool → String | none => \"none\" | some b => fB b",
+         "def dictN : P (Option (Option (Option Int))) := do",
+         "  let t ← tok",
+         "  if t == \"None\" then pure none else if t == \"nokey\" then pure (some none) else if t == \"nnone\" then pure (some (some none)) else",
+         "  match t.toInt? with | some k => pure (some (some (some k))) | none => throw s!\"dictN:{t}\"",
+         "def fDN : Option (Option (Option Int)) → String | none => \"None\" | some none => \"nokey\" | some (some none) => \"nnone\" | some (some (some k)) => toString k", "",
          "def opsPy (op : String) : Option (P String) :=", "  match op with"]
     for spec in TARGETS:
         if status.get("py:" + spec["name"]) != "translated":
